@@ -69,6 +69,8 @@ type ThreadX struct {
 	site   string
 	depth  int
 	vc     vclock
+	role   string // "caller", "lib:<file:line of the go statement>", "env"
+	opSite string // file:line of the library-level visible operation the thread is parked at ("" otherwise)
 }
 
 // wgState / muState: sync.WaitGroup and sync.(RW)Mutex, keyed by the address of the variable.
@@ -94,6 +96,8 @@ type transition struct {
 type transID struct {
 	tid, kind, partner, caseIdx int
 	objs                        string // sorted ids of the channels / sync objects touched
+	nb                          bool   // non-blocking select (has a default case): its outcome depends on which
+	//                                    other threads are parked where, i.e. on every other thread's progress
 }
 
 func (e *Exec) transIdent(tr transition) transID {
@@ -108,6 +112,7 @@ func (e *Exec) transIdent(tr transition) transID {
 			id.objs = fmt.Sprintf("c%d", t.ch.id)
 		}
 	case pSelect:
+		id.nb = t.hasDefault
 		var ids []string
 		for _, sc := range t.sel {
 			if sc.ch != nil {
@@ -135,7 +140,7 @@ func independent(a, b transID) bool {
 	if a.tid == b.tid || a.tid == b.partner || b.tid == a.partner || (a.partner >= 0 && a.partner == b.partner) {
 		return false
 	}
-	if a.objs == "*" || b.objs == "*" {
+	if a.objs == "*" || b.objs == "*" || a.nb || b.nb {
 		return false
 	}
 	if a.objs == "" || b.objs == "" {
@@ -239,7 +244,7 @@ func (e *Exec) initSched() {
 func (e *Exec) runThreads(body func()) (res interface{}) {
 	e.initSched()
 	ss := e.ss
-	t0 := &ThreadX{id: 0, wake: make(chan struct{}, 1), vc: vclock{1}}
+	t0 := &ThreadX{id: 0, wake: make(chan struct{}, 1), vc: vclock{1}, role: "caller"}
 	ss.threads = append(ss.threads, t0)
 	ss.cur = t0
 	ss.wg.Add(1)
@@ -293,6 +298,14 @@ func (e *Exec) spawn(fr *Frame, fn Value, args []Value, instr *ssa.Go) {
 		t.lib = f.Pkg != nil && e.P.isRepoPkg(f.Pkg) && !strings.Contains(pos.Filename, "zz_verif")
 	}
 	t.env = !t.lib
+	t.role = "env"
+	if t.lib {
+		file := pos.Filename
+		if i := strings.LastIndex(file, "/"); i >= 0 {
+			file = file[i+1:]
+		}
+		t.role = fmt.Sprintf("lib:%s:%d", file, pos.Line)
+	}
 	ss.threads = append(ss.threads, t)
 	// happens-before: everything the parent did so far precedes the child
 	t.vc = ss.cur.vc.clone()
@@ -456,8 +469,36 @@ func (e *Exec) enabled() []transition {
 	return out
 }
 
+// libOpSite: file:line of the current instruction when it belongs to library (non-harness) code of /repo.
+func (e *Exec) libOpSite() string {
+	if e.curInstr == nil || e.curFn == nil || e.curFn.Pkg == nil || !e.P.isRepoPkg(e.curFn.Pkg) || e.P.isHarnessFnCached(e.curFn) {
+		return ""
+	}
+	pos := e.curInstr.Pos()
+	if !pos.IsValid() {
+		return ""
+	}
+	p := e.P.prog.Fset.Position(pos)
+	file := p.Filename
+	if i := strings.LastIndex(file, "/"); i >= 0 {
+		file = file[i+1:]
+	}
+	return fmt.Sprintf("%s:%d", file, p.Line)
+}
+
+func (e *Exec) traceOp(t *ThreadX) {
+	if t != nil && t.opSite != "" {
+		e.strace = append(e.strace, TraceEv{Role: t.role, Site: t.opSite})
+		t.opSite = ""
+	}
+}
+
 func (e *Exec) perform(tr transition) {
 	t := tr.t
+	if t.pend != pStart && t.pend != pResume {
+		e.traceOp(t)
+		e.traceOp(tr.partner)
+	}
 	c := e.ctx
 	_ = c
 	switch t.pend {
@@ -545,6 +586,7 @@ func (e *Exec) doRecv(t *ThreadX, ch *ChanObj) {
 func (e *Exec) reschedule() {
 	ss := e.ss
 	me := ss.cur
+	me.opSite = e.libOpSite()
 	for {
 		trans := e.enabled()
 		if len(trans) == 0 {
